@@ -231,7 +231,7 @@ def impl_cmaes_eig(Csym):
 def eig_oracle(ctx, Csym, tag, V, d, origin):
     """residual / orthonormality / ordering of the real tred2+tql2 output, exactly."""
     n = len(Csym)
-    rp = {"kind": "eig", "C": hexm(Csym)}
+    rp = {"kind": "eig", "C": hexm(Csym), "via": "cmaes" if "CMAES" in origin else "direct"}
     if tag != "ok":
         ctx.violation("eig-raises-" + tag.split(":")[1], "tred2/tql2 raised %s on a symmetric %dx%d matrix (%s): %r" % (tag.split(":")[1], n, n, origin, Csym), rp)
         return False
@@ -770,9 +770,13 @@ def replay(ctx, data):
     stats = {"singular": 0, "known_singular_missed": 0, "ambiguous_tiny_pivot": 0, "residual_checked": 0, "forward_checked": 0}
     if rp.get("kind") == "eig":
         Cm = unhexm(rp["C"])
-        tag, B, d, e, _ = impl_eig(Cm, [1.0] * len(Cm))
         ctx.count()
-        eig_oracle(ctx, Cm, tag, B, d, "replay")
+        if rp.get("via") == "cmaes":
+            B2, D2 = impl_cmaes_eig(Cm)
+            eig_oracle(ctx, Cm, "ok", B2, [v * v for v in D2], "replay via CMAES.eigendecomposition")
+        else:
+            tag, B, d, e, _ = impl_eig(Cm, [1.0] * len(Cm))
+            eig_oracle(ctx, Cm, tag, B, d, "replay")
     elif rp.get("kind") == "lsolve":
         A = unhexm(rp["A"])
         b = [float.fromhex(v) for v in rp["b"]]
